@@ -165,6 +165,25 @@ def same(a, b, tol, path="", out=None):
     return True if a == b else bad("%r vs %r" % (a, b))
 
 
+def field_digests(res):
+    return None if res is None else {f: dg(v) for f, v in vars(res).items()}
+
+
+def run_level_fields(res_after_run):
+    """the fields run() sets (everything that is not None right after a run); the others are the modal fields mpe fills in"""
+    return sorted(f for f, v in vars(res_after_run).items() if v is not None)
+
+
+def rewritten_fields(before, after, fields):
+    """run-level fields whose content differs (before/after: result objects), with the size of the difference"""
+    out = []
+    for f in fields:
+        msg = []
+        if not same(getattr(after, f, None), getattr(before, f, None), 0.0, path=f, out=msg):
+            out.append(msg[0] if msg else f)
+    return out
+
+
 # ----------------------------------------------------------------------------------------------- the world
 LAYOUTS = ("C", "F", "S", "1")
 
@@ -272,6 +291,9 @@ class World:
                                 raise
                             continue  # single channel: the classes that run cannot extract modes; mpe is not called there
                         v["mpe"][j] = dict(R2=a2.result, d2=dg(a2.result))
+                        bad = rewritten_fields(a1.result, a2.result, run_level_fields(a1.result))
+                        if bad:
+                            r.setdefault("mpe_rewrites", []).append((j, bad))
                         r.setdefault("rp2", {})[j] = {f: dg(x) for f, x in vars(a2.run_params).items()}
                     if watch:
                         r["modified"] = watch[0]
@@ -402,6 +424,9 @@ def execute(job):
         kind = op[0]
         check = n >= nstart
         before = snapshot(ss, (user_arr, owner)) if check else None
+        res_before = None
+        if check and kind in ("mpe", "mpeplot") and "a%d" % op[1] in ss.algorithms:
+            res_before = copy.deepcopy(ss.algorithms["a%d" % op[1]].result)
         exc = None
         try:
             if kind == "add":
@@ -476,6 +501,15 @@ def execute(job):
                     b["modes"], b["mpe_ever"] = True, True
                     if exc is not None:
                         fail("oracle", "mpe:raised", "mpe raised %s although the algorithm has been run" % exc, call=n)
+                    elif res_before is not None and nm in ss.algorithms and ss.algorithms[nm].result is not None:
+                        # mpe may fill in the modal fields only: what run() stored must stay what run() produced
+                        cn_ = lineup[b["i"]][0]
+                        rl = [f for f in run_level_fields(W.ref(cn_, lineup[b["i"]][1], (), "C")["variants"][0]["R1"])] \
+                            if W.ref(cn_, lineup[b["i"]][1], (), "C")["usable"] else []
+                        bad = rewritten_fields(res_before, ss.algorithms[nm].result, rl)
+                        if bad:
+                            fail("oracle", "mpe:run-field-rewritten", "mpe of %s (%s) changed what run() had stored in its result: %s "
+                                 "(only the modal fields may change)" % (nm, cn_, "; ".join(bad)), call=n)
         elif kind == "rebind":
             cur_version = tuple(op[2])
             cur_fs = cur_fs / 2 if op[1] == "dec" else cur_fs
@@ -627,6 +661,18 @@ def execute(job):
         if got != want:
             bad = sorted(f for f in want if got is None or got.get(f) != want[f])
             fail("oracle", "params:changed", "run parameters of %s differ from those given (fields %s)" % (nm, bad))
+        if b["ran"] and b["modes"]:
+            outs = []
+            for var in r["variants"]:
+                bad = rewritten_fields(var["R1"], alg.result, run_level_fields(var["R1"])) if var["tol"] == 0.0 else []
+                if not bad:
+                    outs = None
+                    break
+                outs.append("; ".join(bad))
+            if outs:
+                fail("oracle", "result:run-fields-not-isolated-run",
+                     "after mpe the run-level fields of %s (%s, params %d) differ from an isolated run of the same class and parameters "
+                     "on the data bound when it was added: %s" % (nm, cn, k, outs[0]))
         if b["ran"]:
             ran_any = True
             d = dg(alg.result)
@@ -935,6 +981,65 @@ def check_poser_histories(ctx, lineups):
             ctx.fail("correspondence", "PoSER on model states of histories: model %s, implementation %s" % (m, got), case, key="C15:corr:poser-histories")
 
 
+# ----------------------------------------------------------------------------------------------- multi-setup classes
+def check_ms_mpe(ctx):
+    """FDD_MS, EFDD_MS, SSIcov_MS, SSIdat_MS, pLSCF_MS through MultiSetup_PreGER: after mpe every run-level field of the
+    result equals the snapshot taken right after run() and an isolated run on the same datasets; a second mpe agrees;
+    the datasets and the other algorithms are untouched"""
+    from pyoma2.algorithms import EFDD_MS, FDD_MS, SSIcov_MS, SSIdat_MS, pLSCF_MS
+    from pyoma2.setup import MultiSetup_PreGER
+    ms = {"FDD_MS": (FDD_MS, "FDD"), "EFDD_MS": (EFDD_MS, "EFDD"), "SSIcov_MS": (SSIcov_MS, "SSIcov"),
+          "SSIdat_MS": (SSIdat_MS, "SSIdat"), "pLSCF_MS": (pLSCF_MS, "pLSCF")}
+
+    def setup():
+        d = [W.base.copy(), W.base2.copy()]
+        return MultiSetup_PreGER(fs=FS, ref_ind=[[0, 1], [0, 1]], datasets=d), d
+
+    def make(name, k):
+        cls, base = ms[name]
+        kw = {a: b for a, b in copy.deepcopy(PARAMS[base][k]).items() if a != "ref_ind"}
+        return cls(name=name, **kw)
+
+    for name, (cls, base) in ms.items():
+        for k in (0, 1):
+            for j in (0, 1):
+                case = dict(kind="multi-setup run + mpe", cls=name, params=PARAMS[base][k], mpe=MPE[base][j])
+                try:  # isolated reference: the class alone, run only
+                    s0, _ = setup()
+                    iso = make(name, k)
+                    s0.add_algorithms(iso)
+                    s0.run_by_name(name)
+                    s1, dsets = setup()
+                    other = make("FDD_MS" if name != "FDD_MS" else "EFDD_MS", 0)
+                    other.name = "other"
+                    alg = make(name, k)
+                    s1.add_algorithms(other, alg)
+                    s1.run_all()
+                    after_run = copy.deepcopy(alg.result)
+                    other_dg, data_dg, sets_dg = dg(other.result), dg(s1.data), dg(dsets)
+                    s1.mpe(name, **copy.deepcopy(MPE[base][j]))
+                except Exception as e:  # noqa: BLE001 - a parameter set the multi-setup variant cannot run: not judged
+                    ctx.not_judged += 1
+                    ctx.note("multi-setup %s (parameters %d, mpe %d) not judged: %s %s" % (name, k, j, type(e).__name__, str(e)[:80]))
+                    continue
+                ctx.count(case)
+                fields = run_level_fields(after_run)
+                bad = rewritten_fields(after_run, alg.result, fields)
+                if bad:
+                    ctx.fail("oracle", "mpe of %s changed what run() had stored in its result: %s (only the modal fields may change)" % (
+                        name, "; ".join(bad)), case, key="C15:mpe:run-field-rewritten")
+                bad = rewritten_fields(iso.result, alg.result, run_level_fields(iso.result))
+                if bad:
+                    ctx.fail("oracle", "after run + mpe the run-level fields of %s differ from an isolated run on the same datasets: %s" % (
+                        name, "; ".join(bad)), case, key="C15:result:run-fields-not-isolated-run")
+                if (dg(other.result), dg(s1.data), dg(dsets)) != (other_dg, data_dg, sets_dg):
+                    ctx.fail("oracle", "mpe of %s changed the datasets or another algorithm's result" % name, case, key="C15:mpe:frame")
+                first = copy.deepcopy(alg.result)
+                s1.mpe(name, **copy.deepcopy(MPE[base][j]))
+                if dg(first) != dg(alg.result) and not same(first, alg.result, 0.0):
+                    ctx.fail("oracle", "a second mpe of %s with the same arguments gives a different result" % name, case, key="C15:mpe:not-repeatable")
+
+
 # ----------------------------------------------------------------------------------------------- persistence by name
 NAME_FAMILIES = [
     ["setup_fs12.5", "setup_fs12.8", "setup_fs12"],          # dotted names that differ only after the last dot
@@ -1081,6 +1186,14 @@ def run(ctx):
                 ctx.fail("oracle", "an isolated run of %s (parameters %d) on a fresh setup gives a different result after other "
                          "algorithms have run in the process: %s" % (cn, k, "; ".join(out)),
                          dict(kind="isolated-rerun", cls=cn, params=PARAMS[cn][k]), key="C15:iso:order-dependence")
+    # mpe fills in the modal fields only: in an isolated run + mpe every field run() set equals the isolated run without mpe
+    for (cn, k, v, lay_), r in list(W.refs.items()):
+        for j, bad in r.get("mpe_rewrites", []):
+            ctx.fail("oracle", "mpe of %s changed what run() had stored in its result: %s (isolated run + mpe against the isolated "
+                     "run; only the modal fields may change)" % (cn, "; ".join(bad)),
+                     dict(kind="isolated run + mpe", cls=cn, params=PARAMS[cn][k], mpe=MPE[cn][j], version=list(v), layout=lay_),
+                     key="C15:mpe:run-field-rewritten")
+    check_ms_mpe(ctx)
     # SciPy's preprocessing is layout-blind (assumed by eff_layout): same values, same strides, for every layout of the input
     for lay_ in ("F", "S"):
         for fn in (lambda x: signal.decimate(x, 2, axis=0), lambda x: signal.detrend(x, axis=0)):
